@@ -701,15 +701,18 @@ static int cif_value_clone_table(struct table_value_s *value, struct table_value
  */
 static int cif_list_serialize(struct list_value_s *list, write_buffer_tp *buf) {
     FAILURE_HANDLING;
+    int result = cif_buf_write(buf, &(list->size), sizeof(size_t));
 
-    if (cif_buf_write(buf, &(list->size), sizeof(size_t)) == CIF_OK) {
+    if (result != CIF_OK) {
+        SET_RESULT(result);
+    } else {
         size_t i;
         for (i = 0; i < list->size; i++) {
             SERIALIZE(list->elements[i], buf, fail);
         }
-    }
 
-    return CIF_OK;
+        return CIF_OK;
+    }
 
     FAILURE_HANDLER(fail):
     FAILURE_TERMINUS;
